@@ -98,6 +98,7 @@ struct Input {
   int ctxVariant = 0;          // 0: D9 is part of the context, 1: D9 is absent
   bool lexFirst = false;       // drain Parser::Lex before Parse (all passes)
   bool abandonLex = false;     // long-lived parsers only: start lexing this text and abandon the stream before the call
+  int convertOrder = 0;        // which of the six orders of the three conversion targets
   bool convert = false;        // also run ConvertTo in both directions (fresh parser + static generator inside the library)
   bool extract = false;        // steal the tree after a successful parse (Parser / SchemaAuditor), like Schema does
   bool evalOK = false;         // cheap enough for the interpreter (decided during the fresh pass, see decideEval)
@@ -276,9 +277,15 @@ Rec observe(Objs& o, sem::SchemaAuditor& schemaForCst, Input& in, Env& env, cons
       if (in.extract) { auto t = o.parser.ExtractAST(); r.add("parser.extracted", t ? treeDump(*t) : std::string("<null>")); }
     }
     if (in.convert) {
-      r.add("generator.convert.math", rl::ConvertTo(text, rl::Syntax::MATH));
-      r.add("generator.convert.ascii", rl::ConvertTo(text, rl::Syntax::ASCII));
-      r.add("generator.convert.undef", rl::ConvertTo(text, rl::Syntax::UNDEF));  // a legal target value: whatever it means, it means the same every time
+      // the three targets in one of the six orders: the first request of an input follows the last request of the PREVIOUS input,
+      // which differs between the two orders in which the sequence is replayed.  UNDEF is a legal target value: whatever it
+      // means, it means the same every time
+      static const int orders[6][3] = {{0, 1, 2}, {0, 2, 1}, {1, 0, 2}, {1, 2, 0}, {2, 0, 1}, {2, 1, 0}};
+      static const rl::Syntax targets[3] = {rl::Syntax::MATH, rl::Syntax::ASCII, rl::Syntax::UNDEF};
+      static const char* names[3] = {"generator.convert.math", "generator.convert.ascii", "generator.convert.undef"};
+      std::string out[3];
+      for (int k : orders[in.convertOrder % 6]) out[k] = rl::ConvertTo(text, targets[k]);
+      for (int k = 0; k < 3; ++k) r.add(names[k], out[k]);
     }
   }
   // ---- Auditor
@@ -463,6 +470,7 @@ Verdict historyWith(Ctx& c, bool contextEdits) {
     in.abandonLex = rare(c, 1, 8);
     in.extract = rare(c, 1, 3);
     in.convert = rare(c, 1, 3);
+    if (contextEdits) in.convertOrder = c.ipick(0, 5);
     in.smode = static_cast<SchemaMode>(c.ipick(0, 2));
     if (in.smode != EXPR_ONLY) {
       static const std::vector<std::pair<const char*, sem::CstType>> heads = {{"D99", sem::CstType::term}, {"F9", sem::CstType::function}, {"P9", sem::CstType::predicate}, {"S99", sem::CstType::structured},
